@@ -586,11 +586,17 @@ where
             let params = params.clone();
             ArcMemo::new({
                 move |_| {
-                    parent_params
+                    // these values were decoded when each route's own
+                    // `ParamsMap` was built
+                    let mut all = ParamsMap::new();
+                    for (k, v) in parent_params
                         .iter()
                         .flat_map(|params| params.get().into_iter())
                         .chain(params.get())
-                        .collect::<ParamsMap>()
+                    {
+                        all.insert_decoded(k, v);
+                    }
+                    all
                 }
             })
         };
@@ -765,11 +771,19 @@ where
                         let params = current.params.clone();
                         ArcMemo::new({
                             move |_| {
-                                parent_params
+                                // these values were decoded when each
+                                // route's own `ParamsMap` was built
+                                let mut all = ParamsMap::new();
+                                for (k, v) in parent_params
                                     .iter()
-                                    .flat_map(|params| params.get().into_iter())
+                                    .flat_map(|params| {
+                                        params.get().into_iter()
+                                    })
                                     .chain(params.get())
-                                    .collect::<ParamsMap>()
+                                {
+                                    all.insert_decoded(k, v);
+                                }
+                                all
                             }
                         })
                     };
